@@ -61,11 +61,34 @@ impl Check for C18 {
             Phase { name: "arrays of arity 0-7 for the KDF context and its sub-arrays with every slot kind", cases: scale(if q { 100000 } else { 600000 }, b), exhaustive: false },
             Phase { name: "encode side: well-formed values of the four types", cases: scale(if q { 60000 } else { 400000 }, b), exhaustive: false },
             Phase { name: "birthday: claims sets with 2^18 pairwise distinct text / private-use claim keys", cases: 2, exhaustive: true },
+            Phase { name: "counter-signature chains of length 0-10 (five forms) in the protected header of a SuppPubInfo and of a KDF context: accepted exactly when the same header is accepted on its own", cases: 11 * 5, exhaustive: true },
         ]
     }
     fn run_case(&self, ctx: &mut Ctx, phase: usize, idx: u64) {
         let ty = TYPES[(idx % 4) as usize];
         match phase {
+            7 => {
+                use crate::capi;
+                use crate::hostile;
+                let c = (idx % 11) as usize;
+                let form = (idx / 11) as u8;
+                let chain = if c == 0 { vec![0xa1, 0x04, 0x41, 0x11] } else { hostile::b1_header(c, form) };
+                let base = capi::from_slice(Ty::ProtMap, &chain).is_ok();
+                ctx.count(if base { "chain-accepted" } else { "chain-rejected" });
+                for root in [7u8, 8, 1, 10] {
+                    let (ty, b) = hostile::carry_header(root, &chain);
+                    ctx.eval();
+                    ctx.nontrivial_bytes(&b);
+                    let ok = capi::from_slice(ty, &b).is_ok();
+                    if ok != base {
+                        ctx.violation(
+                            &format!("C18/chain-acceptance-depends-on-carrier/{}", ty.name()),
+                            format!("a protected header holding a chain of {} counter signature(s) (form {}) is {} on its own but {} as the protected header of a {}", c, form, if base { "accepted" } else { "rejected" }, if ok { "accepted" } else { "rejected" }, ty.name()),
+                            crate::json::J::obj(vec![("chain_length", crate::json::J::UInt(c as u64)), ("form", crate::json::J::UInt(form as u64)), ("hex", crate::json::J::Str(crate::rcbor::hex(&b)))]),
+                        );
+                    }
+                }
+            }
             6 => {
                 super::common::birthday_case(ctx, 4 + idx);
             }
